@@ -136,6 +136,7 @@ def handle (fn : String) (a : Json) : Option (Except String Json) :=
         | .error .noStartTasks => "noStartTasks"
         | .error (.taskNotFound _) => "taskNotFound"
         | .error (.joinInbound _) => "joinInbound"
+        | .error .requiresCycle => "requiresCycle"
       pure (Json.mkObj [
         ("verdict", verdict),
         ("start", strs ((startTasks w).map (·.name))),
